@@ -255,11 +255,11 @@ func vC14Rng(seed int64, k vC14Key, hl int, pbOK bool, fill int) *rand.Rand {
 // ---- projection of a stored / converted message --------------------------------
 
 type vC14Fields struct {
-	key, value          []byte
-	headers             map[string][]byte
-	ackInbox, corrID    string
-	ackPolicy           client.AckPolicy
-	full                bool // ackInbox, corrID, ackPolicy are available (not persisted in the log)
+	key, value       []byte
+	headers          map[string][]byte
+	ackInbox, corrID string
+	ackPolicy        client.AckPolicy
+	full             bool // ackInbox, corrID, ackPolicy are available (not persisted in the log)
 }
 
 func vC14FromCommitlog(m *commitlog.Message) vC14Fields {
@@ -413,8 +413,19 @@ func vC14Internal(srv *Server, part *partition, stream, h string, shape int) (st
 			tmpl = []byte{0x08, byte(shape)} // an op without its sub-message
 		case shape == 14:
 			tmpl = []byte{0x12, 0x00} // CREATE_STREAM with a CreateStreamOp that has no stream
-		default:
+		case shape == 15:
 			tmpl = []byte{0x08, 0x01, 0x1A, 0x00} // SHRINK_ISR with an empty ShrinkISROp
+		default:
+			// Op X carrying the (empty) sub-message of operation Y, for every pair of operations
+			ops := []byte{0, 1, 2, 4, 5, 6, 7, 9, 11, 12, 13}
+			fields := []byte{2, 3, 4, 5, 6, 7, 8, 9, 10, 11, 12}
+			k := (shape - 16) % (len(ops) * len(fields))
+			op, field := ops[k/len(fields)], fields[k%len(fields)]
+			tmpl = []byte{}
+			if op != 0 {
+				tmpl = append(tmpl, 0x08, op)
+			}
+			tmpl = append(tmpl, field<<3|2, 0x00)
 		}
 		return srv.getPropagateInbox(), 8, tmpl
 	case "serverinfo": // ServerInfoRequest: type 10
